@@ -156,8 +156,8 @@ pub open spec fn fd_matrix(m: int, x: Seq<real>, h: real, s: int) -> bool {
     s.loop(1, invariant=["n <= n_max || n == 2", "guess@.len() == S", "func_eval@.len() == S", "shift@.len() == S",
                           "forall|g: F, p: &[R]| p@.len() == S ==> #[trigger] g.requires((p,))",
                           "forall|g: F, p: &[R], y: SV<S>| #[trigger] g.ensures((p,), y) ==> y@ == FV(sl(p)) && y@.len() == S"], decreases="n_max - n")
-    s.hint("before: #1 return Ok(guess);", "proof { axiom_wnorm(shift@); assert(quasi_update_ok(guess@, tol@)); }")
-    s.hint("before: #2 return Ok(guess);", "proof { axiom_wnorm(shift@); assert(quasi_update_ok(guess@, tol@)); }")
+    s.hint("after: #1 guess += &shift", "proof { axiom_wnorm(shift@); if wnorm(shift@) <= tol@ { assert(quasi_update_ok(guess@, tol@)); } }")
+    s.hint("after: #2 guess += &shift", "proof { axiom_wnorm(shift@); if wnorm(shift@) <= tol@ { assert(quasi_update_ok(guess@, tol@)); } }")
     s.hint("before: guess +=", """proof {
         axiom_mv_zero(minv(jac.id@), S as nat); axiom_wnorm(shift@);
         if FV(sl(initial)) == wzero(S as nat) { assert(wadd(guess@, shift@) =~= guess@); }
